@@ -14,6 +14,8 @@ Definition above (a : nat) (r : list frame) (base : list (option N)) (s : st) : 
   a <= cs s /\ (exists hs, ts s = hs ++ r /\ nonmarker hs) /\ (exists ex, its s = ex ++ base).
 
 Definition res (o : outcome) a r base s := match o with ONorm => at_base a r base s | _ => above a r base s end.
+(* for the synchronous part of an async chain: "some body threw" is an ordinary return *)
+Definition res2 (o : outcome) a r base s := match o with OIntr _ => above a r base s | _ => at_base a r base s end.
 
 (* ---- list facts ---- *)
 Lemma skipn_app_exact : forall {A} (h r : list A), skipn (length h) (h ++ r) = r.
@@ -162,7 +164,8 @@ Section Clean.
   Definition Ps (l : codes) :=
     (forall s o s' a r b, exec_seq c l s = (o, s') -> at_base a r b s -> J s -> J s' /\ res o a r b s') /\
     (forall k s o s' a r b, exec_cbs c k l s = (o, s') -> at_base a r b s -> J s -> J s' /\ res o a r b s') /\
-    (forall s o s' a r b, exec_gen c l s = (o, s') -> at_base a r b s -> J s -> J s' /\ res o a r b s').
+    (forall s o s' a r b, exec_gen c l s = (o, s') -> at_base a r b s -> J s -> J s' /\ res o a r b s') /\
+    (forall s o s' a r b, exec_async c l s = (o, s') -> at_base a r b s -> J s -> J s' /\ res2 o a r b s').
 
   Lemma J_push_ctx : forall s, J s -> J (push_ctx s). Proof. auto. Qed.
   Lemma J_pop_ctx : forall s, J s -> J (pop_ctx s). Proof. auto. Qed.
@@ -254,6 +257,8 @@ Section Clean.
         eapply IH in E; [ | sAt | sJ ]; destruct E as [? ?]
     | IH : (forall s o s' a r b, exec_gen c ?p s = (o, s') -> _), E : exec_gen c ?p ?s = (_, _) |- _ =>
         eapply IH in E; [ | sAt | sJ ]; destruct E as [? ?]
+    | IH : (forall s o s' a r b, exec_async c ?p s = (o, s') -> _), E : exec_async c ?p ?s = (_, _) |- _ =>
+        eapply IH in E; [ | sAt | sJ ]; destruct E as [? ?]
     | E : restore_to c _ _ = (_, _) |- _ =>
         eapply under_frame_throw in E; [ | sAbP | (simpl; reflexivity) | lia | sJ ];
         let t := fresh "t" in let Eo := fresh "Eo" in
@@ -271,7 +276,7 @@ Section Clean.
     end.
 
   Ltac finish := first [ (split; assumption) | split; [ sJ | sRes ] ].
-  Ltac go := repeat brk; fold_ep; simpl res in *; repeat (fwd; simpl res in * ); try finish.
+  Ltac go := repeat brk; fold_ep; simpl res in *; simpl res2 in *; repeat (fwd; simpl res in *; simpl res2 in * ); try finish.
   Ltac start s Hat := destruct Hat as (? & ? & ?); subst; pose proof (at_refl s).
 
   Lemma at_leave_gen : forall a f r b s, at_base (S (S (S a))) (f :: r) b s -> at_base a r b (leave_gen s).
@@ -338,7 +343,7 @@ Section Clean.
     - (* ICall *) intros bd IHb s o s' a r b H Hat Hj. start s Hat. simpl in H. go.
     - (* INat *) intros k l [_ [IH _]] s o s' a r b H Hat Hj. start s Hat. simpl in H. destruct k; go.
     - (* IForOf *) intros ret l [IH _] s o s' a r b H Hat Hj. start s Hat. simpl in H. go.
-    - (* IGen *) intros l [_ [_ IH]] s o s' a r b H Hat Hj. simpl in H. eapply IH; eauto.
+    - (* IGen *) intros l [_ [_ [IH _]]] s o s' a r b H Hat Hj. simpl in H. eapply IH; eauto.
     - (* IGenRet *) intros pre IHp fin IHf s o s' a r b H Hat Hj. simpl in H.
       assert (Ht : ts s = r) by (destruct Hat as (_ & T & _); exact T). rewrite Ht in H.
       destruct (exec_c c pre _) as [o1 s3] eqn:E1.
@@ -358,15 +363,16 @@ Section Clean.
           destruct H as (A & B & C). subst o. split; [exact A | exact B].
       + eapply gen_intr_ok in H; [ | eapply above_handler; [exact Hr3 | reflexivity] | lia | exact Hj3 ].
         destruct H as (A & B & C). subst o. split; [exact A | exact B].
-    - (* IAsync *) intros pre IHp post _ s o s' a r b H Hat Hj.
-      assert (okjob (JAsync post)) by exact I. start s Hat. simpl in H. go.
+    - (* IAsyncN *) intros pres [_ [_ [_ IH]]] posts _ s o s' a r b H Hat Hj.
+      assert (okjob (JChain posts)) by exact I. start s Hat. simpl in H. go.
     - (* IJob *) intros bd _ s o s' a r b H Hat Hj. assert (okjob (JPlain bd)) by exact I. simpl in H. go.
     - (* CNil *) intros s o s' a r b H Hat Hj. simpl in H. go.
     - (* CCons *) intros i IHi p IHp s o s' a r b H Hat Hj. simpl in H. go.
-    - (* SNil *) split; [| split]; intros; simpl in *; go.
-    - (* SCons *) intros bd IHb l [IH1 [IH2 IH3]]. split; [| split].
+    - (* SNil *) split; [| split; [| split]]; intros; simpl in *; go.
+    - (* SCons *) intros bd IHb l [IH1 [IH2 [IH3 IH4]]]. split; [| split; [| split]].
       + intros s o s' a r b H Hat Hj. start s Hat. simpl in H. go.
       + intros k s o s' a r b H Hat Hj. start s Hat. simpl in H. destruct k; go.
+      + intros s o s' a r b H Hat Hj. start s Hat. simpl in H. go.
       + intros s o s' a r b H Hat Hj. start s Hat. simpl in H. go.
   Qed.
 
@@ -375,7 +381,11 @@ Section Clean.
   Lemma run_job_ok : forall j s o s' a r b,
     run_job c j s = (o, s') -> at_base a r b s -> J s -> J s' /\ at_base a r b s'.
   Proof.
-    intros j s o s' a r b H Hat Hj. destruct j as [bd | bd]; pose proof (IHc bd) as IH; unfold Pc in IH; start s Hat; simpl in H; go.
+    intros j s o s' a r b H Hat Hj. destruct j as [bd | [| bd rest]].
+    - pose proof (IHc bd) as IH; unfold Pc in IH; start s Hat; simpl in H; go.
+    - simpl in H. inversion H; subst. auto.
+    - assert (okjob (JChain rest)) by exact I.
+      pose proof (IHc bd) as IH; unfold Pc in IH; start s Hat; simpl in H; go.
   Qed.
 
   Lemma run_jobs_ok : forall js s o s' a r b,
